@@ -1075,6 +1075,7 @@ func genAcc(o *hx.Out, r *hx.Rng, n int) {
 		{NVal: 4, Pre: 14, Rounds: 1, Senders: 2, PerSender: 2, Agg: true, Events: 1}, // aggregate commit available
 		{NVal: 4, Pre: 3, Rounds: 2, Senders: 4, PerSender: 3, ExecMix: true},         // execute success / fail / invalid, with and without events
 		{NVal: 4, Pre: 3, Rounds: 1, Senders: 2, PerSender: 2, NextVals: true},        // the block changes the validator set
+		{NVal: 8, Pre: 26, Rounds: 1, Senders: 1, PerSender: 1, Agg: true},            // validator count a multiple of 8: length of the aggregation bits
 	}
 	for i := 0; i < n; i++ {
 		if i < len(fixed) {
